@@ -51,6 +51,20 @@ pub fn zinc_roundtrip(m: &MVal, bits: u64) -> Result<String, RtFail> {
         Ok(Ok(b)) => b,
     };
     let got = observe(&back);
+    // the reader entry point must give the same value: decoded from a source that hands out a few bytes at a time and
+    // answers Interrupted on every other call (one case in four)
+    if (bits ^ text.len() as u64) % 4 == 0 && text.len() < 4096 {
+        let via_reader = crate::util::catch(|| {
+            let mut r = crate::readers::HostileReader::new(text.as_bytes(), crate::readers::Chunking::Random(bits ^ 0x5151), true, None);
+            libhaystack::encoding::zinc::decode::parser::Parser::make(&mut r).and_then(|mut p| p.parse_value()).map_err(|e| e.to_string())
+        });
+        match via_reader {
+            Ok(Ok(v)) if observe(&v) == got => {}
+            Ok(Ok(v)) => return Err(RtFail { class: "reader-decodes-differently".into(), detail: format!("Parser::make(reader).parse_value gives {}", truncate(&observe(&v).show(), 300)), text: Some(text) }),
+            Ok(Err(e)) => return Err(RtFail { class: "reader-decode-err".into(), detail: format!("decoding the encoder's text from a reader (short reads, Interrupted) fails: {e}"), text: Some(text) }),
+            Err(p) => return Err(RtFail { class: panic_sig(&p), detail: format!("decoding from a reader panicked: {}", p.msg), text: Some(text) }),
+        }
+    }
     match diff(m, &got) {
         None => Ok(text),
         Some(d) => Err(RtFail { class: "mismatch".into(), detail: d, text: Some(text) }),
@@ -237,7 +251,7 @@ pub fn run(ctx: &mut Ctx) {
         let families: [(&str, &[u8]); 5] = [("list", &[0]), ("dict", &[1]), ("grid", &[2]), ("mixed", &[0, 1, 2]), ("meta", &[2, 3, 4, 1])];
         let mut idx = 0u64;
         for (fam, kinds) in families {
-            for d in [1usize, 2, 3, 5, 8, 13, 21, 34, 55, 64, 89, 100, 120, 126, 127] {
+            for d in [1usize, 2, 3, 5, 8, 13, 21, 34, 55, 64, 89, 100, 120, 126, 126, 126, 126, 126, 126, 126, 127, 127, 127, 127, 127, 127, 127] {
                 let i = idx;
                 idx += 1;
 
@@ -245,7 +259,8 @@ pub fn run(ctx: &mut Ctx) {
                     continue;
                 }
                 let mut rng = ctx.case_rng("deep-chain", i);
-                let m = crate::gen::deep_chain(&mut rng, d, kinds);
+                // at the deepest levels every kind of innermost value in turn, elsewhere a random one
+                let m = if d >= 126 { crate::gen::deep_chain_with_leaf(&mut rng, d, kinds, (i % 7) as usize) } else { crate::gen::deep_chain(&mut rng, d, kinds) };
                 ctx.eval(&format!("deep-chain:{fam}"), m.fp(), true);
                 ctx.note_max("max_nesting_depth_round_tripped", d as f64);
                 if let Err(f) = zinc_roundtrip(&m, 0) {
